@@ -25,6 +25,7 @@ numpy's broadcasting alignment.  On that model the clauses of the property are d
 import ast
 import itertools
 import math
+import os
 
 import numpy as np
 
@@ -36,8 +37,9 @@ from ..engine import rule, describe, selftest, Mutant, Twin
 KS = 'openmdao/components/ks_comp.py'
 JAX = 'openmdao/jax_funcs/ks.py'
 
-# set to True to turn the dKS/drho observation (second element of KSfunction.derivatives) into a violation
-ARM_DRHO = False
+# OMSTATIC_C25_ARM_DRHO=1 turns the dKS/drho observation (second element of KSfunction.derivatives, unused by
+# KSComp and not stated by the property) into a violation with key 'dKS_drho'; default: note + counter only
+ARM_DRHO = os.environ.get('OMSTATIC_C25_ARM_DRHO', '') == '1'
 
 describe('C25',
          'Symbolic interpretation (omstatic/lib_c25.py) of KSfunction, KSComp and the jax ks_max/ks_min: values '
@@ -181,8 +183,8 @@ def bracket_witness(p, sign, mode):
                 if badm.any():
                     i = int(np.argmax(badm.ravel()))
                     row = arr[i] if mode == '2d' else arr.ravel()
-                    return (f'for g={row.tolist()}, rho={rho} the modelled value is {v.ravel()[i]!r}, outside '
-                            f'[{lo.ravel()[i]!r}, {hi.ravel()[i]!r}]')
+                    return (f'for g={row.tolist()}, rho={rho} the modelled value is {float(v.ravel()[i])!r}, outside '
+                            f'[{float(lo.ravel()[i])!r}, {float(hi.ravel()[i])!r}]')
     return None
 
 
@@ -225,6 +227,9 @@ def lse(repo, out):
     """Value is the shifted log-sum-exp family (bracket is a theorem), same extremum in/out, stable exponent, right axis."""
     for rel, qn, mode, sign, jax_only in LSE_ANCHORS:
         fn = repo.func(rel, qn)
+        if jax_only and set(fn.decorators()) - {'jit'}:
+            out.unsure(fn, fn.node, f'decorators {fn.decorators()}: a custom derivative rule may be attached')
+            continue
         res = run_sym(out, fn, lambda: sym_call(repo, rel, qn, mode, jax_only))
         if res is None:
             continue
@@ -256,16 +261,26 @@ def lse(repo, out):
 
 
 # ------------------------------------------------------------------------------------------ KSComp level
+def option_aliases(fn):
+    """Local names bound to self.options in fn (plus the attribute path itself)."""
+    al = {'self.options'}
+    for st in astx.walk_stmts(fn.node.body):
+        if isinstance(st, ast.Assign) and astx.path(st.value) == 'self.options':
+            al |= {t.id for t in st.targets if isinstance(t, ast.Name)}
+    return al
+
+
 def tested_options(fns):
+    """Names of the options read inside branch conditions of the given methods."""
     names = set()
     for fn in fns:
+        al = option_aliases(fn)
         for n in astx.walk(fn.node):
             t = n.test if isinstance(n, (ast.If, ast.IfExp)) else None
             if t is None:
                 continue
             for s in astx.walk(t):
-                if isinstance(s, ast.Subscript) and astx.const_str(s.slice) and \
-                        astx.path(s.value) in ('opt', 'opts', 'options', 'self.options'):
+                if isinstance(s, ast.Subscript) and astx.const_str(s.slice) and astx.path(s.value) in al:
                     names.add(astx.const_str(s.slice))
     return sorted(names)
 
@@ -371,9 +386,16 @@ def parity(repo, out):
                 raise X.Unknown(st, f'aggregated array {X.show(A)} is not +-(g - upper) / output not +-KS')
             actual = (atom[3], c * cg)
             problems = 0
-            if R != X.Poly.atom(OPT_RHO):
+            rs = R.single()
+            if rs is not None and rs[1] == ((OPT_RHO, 1),) and rs[0] >= 1:
+                pass   # KS with c*rho, c >= 1, is inside [ext, ext + ln(n)/rho] as well
+            elif R.is_const() or (rs is not None and rs[1] == ((OPT_RHO, 1),)):
                 problems += 1
-                bad(fc, st, f"[{tag}] KS is evaluated with rho = {X.show(R)} instead of options['rho']", 'compute-rho')
+                bad(fc, st, f"[{tag}] KS is evaluated with rho = {X.show(R)} instead of options['rho']: the distance to "
+                    "the extremum is bounded by ln(n)/that, which exceeds ln(n)/options['rho'] for admissible rho",
+                    'compute-rho')
+            else:
+                raise X.Unknown(st, f'aggregation factor {X.show(R)} not recognised')
             if cg != s_in:
                 problems += 1
                 bad(fc, st, f'[{tag}] the constraint array enters the aggregate as {X.show(A)}: sign {int(cg):+d}, the '
@@ -381,6 +403,8 @@ def parity(repo, out):
                     'compute-input-sign')
             rem = A - X.Poly.atom(IN_G).scale(cg)
             if rem != X.Poly.atom(OPT_UPPER).scale(-cg):
+                if any(a != OPT_UPPER for m in rem.t for a, _ in m):
+                    raise X.Unknown(st, f'offset {X.show(rem)} of the aggregated array not recognised')
                 problems += 1
                 bad(fc, st, f"[{tag}] the aggregate is taken of {X.show(A)}; 'upper' is not honoured (expected "
                     f"{'-' if cg < 0 else ''}(inputs['g'] - options['upper']))", 'compute-upper')
@@ -623,7 +647,12 @@ selftest(
     Mutant('jax-min-diff-swapped', JAX, 'x_diff = x_min - x', 'x_diff = x - x_min', 'C25.lse'),
     Mutant('jax-min-plus', JAX, 'return x_min - 1.0 / rho * jnp.log(summation)', 'return x_min + 1.0 / rho * jnp.log(summation)', 'C25.lse'),
     Mutant('jax-min-uses-max', JAX, 'x_min = jnp.min(x)', 'x_min = jnp.max(x)', 'C25.lse'),
+    Mutant('lse-precedence', KS, 'KS = g_max + 1.0 / rho * np.log(summation)', 'KS = g_max + 1.0 / (rho * np.log(summation))', 'C25.lse'),
+    Mutant('lse-sum-of-shifted', KS, 'summation = np.sum(exponents, axis=-1)[:, np.newaxis]', 'summation = np.sum(g_diff, axis=-1)[:, np.newaxis]', 'C25.lse'),
+    Mutant('lse-newaxis-in-front', KS, 'g_max = np.max(np.atleast_2d(g), axis=-1)[:, np.newaxis]', 'g_max = np.max(np.atleast_2d(g), axis=-1)[np.newaxis, :]', 'C25.lse'),
     # ---- grad
+    Mutant('grad-global-sum', KS, 'dKS_dsum = 1.0 / (rho * summation)', 'dKS_dsum = 1.0 / (rho * np.sum(exponents))', 'C25.grad'),
+    Mutant('grad-plain-exponents-ratio', KS, 'dKS_dg = dKS_dsum * dsum_dg', 'dKS_dg = exponents / (1.0 + summation)', 'C25.grad'),
     Mutant('grad-rho-not-cancelled', KS, 'dKS_dsum = 1.0 / (rho * summation)', 'dKS_dsum = 1.0 / summation', 'C25.grad'),
     Mutant('grad-dsum-no-rho', KS, 'dsum_dg = rho * exponents', 'dsum_dg = exponents', 'C25.grad'),
     Mutant('grad-unnormalised', KS, 'dKS_dg = dKS_dsum * dsum_dg', 'dKS_dg = dsum_dg / rho', 'C25.grad'),
@@ -644,6 +673,11 @@ selftest(
     Mutant('parity-rho-default-in-partials', KS, "KSfunction.derivatives(con_val, opt['rho'])[0]", "KSfunction.derivatives(con_val)[0]", 'C25.parity'),
     Mutant('parity-elif-minimum', KS, "            con_val = -con_val\n        if opt['minimum']:\n            con_val = -con_val\n\n        ks_val",
            "            con_val = -con_val\n        elif opt['minimum']:\n            con_val = -con_val\n\n        ks_val", 'C25.parity'),
+    Mutant('parity-partials-always-negative', KS, "        if self.options['lower_flag']:\n            derivs = -derivs\n", "        derivs = -derivs\n", 'C25.parity'),
+    Mutant('parity-output-negated-on-lower', KS, "        if opt['minimum']:\n            ks_val = -ks_val\n", "        if opt['lower_flag']:\n            ks_val = -ks_val\n", 'C25.parity'),
+    Mutant('parity-upper-after-negation', KS, "        con_val = inputs['g'] - opt['upper']\n" + _NEG_LOW,
+           "        con_val = inputs['g']\n" + _NEG_LOW + "        con_val = con_val - opt['upper']\n", 'C25.parity'),
+    Mutant('parity-half-rho', KS, "ks_val = KSfunction.compute(con_val, opt['rho'])", "ks_val = KSfunction.compute(con_val, 0.5 * opt['rho'])", 'C25.parity'),
     # ---- pattern
     Mutant('pattern-fortran-flatten', KS, "partials['KS', 'g'] = derivs.flatten()", "partials['KS', 'g'] = derivs.flatten(order='F')", 'C25.pattern'),
     Mutant('pattern-transposed', KS, "partials['KS', 'g'] = derivs.flatten()", "partials['KS', 'g'] = derivs.T.flatten()", 'C25.pattern'),
@@ -674,6 +708,17 @@ selftest(
                 'cols = np.tile(np.arange(vec_size), width) * width + np.repeat(np.arange(width), vec_size)')]),
     Twin('twin-arange-cols', KS, 'cols = np.tile(cols, vec_size) + np.repeat(np.arange(vec_size), width) * width',
          'cols = np.arange(vec_size * width)'),
+    Twin('twin-alias-renamed', KS, "opt = self.options", "o = self.options", nth='all',
+         also=[(KS, "opt['", "o['", 'all')]),
+    Twin('twin-locals-renamed', KS, 'g_diff', 'shifted', nth='all', also=[(KS, 'con_val', 'c', 'all')]),
+    Twin('twin-conditioning-helper', KS, "    def compute(self, inputs, outputs):",
+         "    def _conditioned(self, inputs):\n        opt = self.options\n        c = inputs['g'] - opt['upper']\n"
+         "        if opt['lower_flag'] != opt['minimum']:\n            c = -c\n        return c\n\n"
+         "    def compute(self, inputs, outputs):",
+         also=[(KS, "        con_val = inputs['g'] - opt['upper']\n" + _NEG_LOW + _NEG_MIN, "        con_val = self._conditioned(inputs)\n", 'all')]),
+    Twin('variant-sharper-rho-consistent', KS, "ks_val = KSfunction.compute(con_val, opt['rho'])", "ks_val = KSfunction.compute(con_val, 2 * opt['rho'])",
+         also=[(KS, "KSfunction.derivatives(con_val, opt['rho'])[0]", "KSfunction.derivatives(con_val, 2 * opt['rho'])[0]")]),
+    Twin('twin-rho-local', KS, "        ks_val = KSfunction.compute(con_val, opt['rho'])", "        rho = opt['rho']\n        ks_val = KSfunction.compute(con_val, rho=rho)"),
     Twin('twin-jax-log-over-rho', JAX, 'return x_max + 1.0 / rho * jnp.log(summation)', 'return jnp.log(summation) / rho + x_max'),
     Twin('twin-jax-min-negated-diff', JAX, 'x_diff = x_min - x', 'x_diff = -(x - x_min)'),
     Twin('twin-jax-min-mirror', JAX, 'x_diff = x_min - x\n    exponents = jnp.exp(rho * x_diff)',
